@@ -45,13 +45,14 @@ def stripScan (all : List Nat) (lbl : Nat) : Bool → Bool → List LItem → Li
   | prevCtx, _, .op o :: r =>
     .op o :: stripScan all lbl (isCtxItem (.op o)) (if prevCtx then false else endsName (.op o)) r
 
-/-- `while isinstance(routine[-1], SsbLabel): …`; `IndexError` when the routine runs empty.
-`fuel` ≥ number of items suffices (every round removes the last item). -/
+/-- `while len(routine) > 0 and isinstance(routine[-1], SsbLabel): …` (repo commit 132d21c: a routine that runs empty
+stays empty). `fuel` ≥ number of items + 1 suffices (every round removes the last item), so the first clause is never
+reached from `stripRoutine`. -/
 def stripLoop (all : List Nat) : Nat → List LItem → Except Err (List LItem)
   | 0, _ => .error .indexError
   | fuel + 1, r =>
     match r.getLast? with
-    | none => .error .indexError
+    | none => .ok r
     | some (.label id _) => stripLoop all fuel (stripScan all id false false r.dropLast)
     | some _ => .ok r
 
@@ -242,16 +243,21 @@ def wrapAssert {α : Type} (x : Except Err α) : Except Err α :=
   | .error .assertionError => .error .valueError
   | y => y
 
+/-- `get_new_routine_id`: `def N` → N, `coro` → previous + 1 -/
+def routineId (r : Routine) (active : Nat) : Nat :=
+  match r.rid with
+  | some n => n
+  | none => active
+
 /-- `RoutineVisitor`: `active` = `_active_routine_id + 1` -/
 def compileRoutines (ms : Macros) : List Routine → Nat → Tables → M Tables
   | [], _, t => pure t
-  | r :: rs, active, t => do
-    let id := match r.rid with
-      | some n => n
-      | none => active
-    let t1 := t.enlarge id
-    let ops ← compileBody ms true r.body
-    compileRoutines ms rs (id + 1) (t1.put id r.info r.coro ops)
+  | r :: rs, active, t =>
+    -- `_enlarge_routine_info` (repo commit 6c4e703): ids start at 0 and must not leave a gap (ids are naturals here)
+    if routineId r active > t.infos.length then fail .ssbCompilerError
+    else do
+      let ops ← compileBody ms true r.body
+      compileRoutines ms rs (routineId r active + 1) ((t.enlarge (routineId r active)).put (routineId r active) r.info r.coro ops)
 
 structure Result where
   infos : List (Option String)
@@ -275,7 +281,7 @@ def compile (p : Program) : Except Err Result :=
   match frontend p with
   | .error e => .error e
   | .ok t =>
-    if !orderedRoutines (-1) t.ops then .error .assertionError
+    if !orderedRoutines (-1) t.ops then .error .ssbCompilerError
     else
       match backend t.ops with
       | .error e => .error e
